@@ -585,6 +585,17 @@ func (ex *Exec) staticAssign(callee *ssa.Function, e Expr, ws *writeSet) bool {
 			return true
 		}
 	case *ECall:
+		if x.Fn == "handlefile" {
+			ws.add(handleBytesKey, nil)
+			ws.add(handleLenKey, nil)
+			return true
+		}
+		if x.Fn == "file" {
+			ws.add(ghostFileKey, nil)
+			ws.add(ghostLenKey, nil)
+			ws.add(ghostExistsKey, nil)
+			return true
+		}
 		if x.Fn != "guarded" || len(x.Args) != 1 {
 			return false
 		}
